@@ -245,7 +245,8 @@ def r04_3(ctx, S, prog, crate):
                 a0 = S.classify_local(S.root_local(c.args[0]["p"]["l"])) if c.args[0]["k"] in ("copy", "move") else "?"
                 ctx.check(a0 == "elapsed", "R04.3", [b.path, "accumulates-onto-elapsed"], "saturating_add's receiver is %s" % a0, c.line())
                 dd = direct_place(b, c.args[1])
-                ok2 = dd is not None and dd[0] == "call" and dd[1].callee == "std::cmp::Ord::max" and 1000 in [const_int(a) for a in dd[1].args]
+                ok2 = dd is not None and dd[0] == "call" and dd[1].callee in ("std::cmp::Ord::max", "std::cmp::max", "core::cmp::max") and \
+                    sorted(1 if const_int(a) == 1000 else 0 for a in dd[1].args) == [0, 1]
                 ctx.check(ok2, "R04.3", [b.path, "at-least-1ns-per-round"], "progress is not max(slowest_time.picos, 1000 ps)", c.line())
                 if ok2:
                     other = [a for a in dd[1].args if const_int(a) != 1000][0]
